@@ -376,11 +376,7 @@ class WebsocketSession(object):
             yield events.ConnectFail('request failed; {}'.format(error))
             return
 
-        # Connected to the server, but not yet upgraded to websockets
-        yield events.Connected(url, proxy=proxy)
-
-        selector = self._selector_cls(sock)
-        log.debug('%r created', selector)
+        selector = None
 
         def _regular():
             """Run regular events if websocket is ready."""
@@ -391,6 +387,12 @@ class WebsocketSession(object):
             return ()
 
         try:
+            # Connected to the server, but not yet upgraded to websockets
+            yield events.Connected(url, proxy=proxy)
+
+            selector = self._selector_cls(sock)
+            log.debug('%r created', selector)
+
             while not websocket.is_closed:
                 readable, max_bytes = selector.wait(self.BUFFER_SIZE, poll)
                 for event in _regular():
@@ -426,4 +428,7 @@ class WebsocketSession(object):
             self._close_socket()
             yield events.Disconnected(graceful=True)
         finally:
-            selector.close()
+            # Also reached when the generator is closed prematurely
+            self._close_socket()
+            if selector is not None:
+                selector.close()
